@@ -206,10 +206,10 @@ func main() {
 	pOne := &one
 	var nilInt *int
 	var nilS *S
-	ppNil := &nilInt     // non-nil pointer to a nil pointer
-	ppOne := &pOne       // non-nil pointer to non-nil pointer
-	var nilPP **int      // nil pointer to pointer
-	pppNil := &ppNil     // three levels, innermost nil
+	ppNil := &nilInt // non-nil pointer to a nil pointer
+	ppOne := &pOne   // non-nil pointer to non-nil pointer
+	var nilPP **int  // nil pointer to pointer
+	pppNil := &ppNil // three levels, innermost nil
 	ch := make(chan int)
 	var nilCh chan int
 	fn := func() {}
